@@ -11,10 +11,10 @@ from .. import gen
 from .. import prog as PG
 
 FWD_FAMILIES = PG.FAMILIES_ALL + PG.FAMILIES_FWD_ONLY
-FWD_SINGLE = ['un', 'special', 'unp', 'unfwd', 'bin', 'binc', 'pow', 'neg', 'abs', 'minmax', 'get', 'T', 'reshape', 'buf', 'set',
+FWD_SINGLE = ['un', 'kink', 'special', 'unp', 'unfwd', 'bin', 'bcast', 'binc', 'pow', 'neg', 'abs', 'minmax', 'get', 'T', 'reshape', 'buf', 'set',
               'rmw', 'sum', 'prod', 'trace', 'dot', 'dotc', 'outer', 'inv', 'solve', 'det', 'logdet', 'expm', 'qr', 'chol', 'eigh',
               'svd', 'svdfull', 'lu', 'fft', 'tile', 'diag', 'tri', 'symvec']
-REV_SINGLE = ['un', 'special', 'unp', 'bin', 'binc', 'pow', 'neg', 'get', 'T', 'reshape', 'buf', 'set', 'rmw', 'sum', 'prod', 'trace',
+REV_SINGLE = ['un', 'kink', 'special', 'unp', 'bin', 'bcast', 'binc', 'pow', 'neg', 'get', 'T', 'reshape', 'buf', 'set', 'rmw', 'sum', 'prod', 'trace',
               'dot', 'dotc', 'outer', 'inv', 'solve', 'det', 'logdet', 'qr', 'chol', 'eigh', 'svd', 'lu', 'fft', 'tile', 'diag',
               'symvec']
 CHEAP_TAIL = ['un', 'bin', 'binc', 'neg', 'get']
